@@ -11,6 +11,19 @@ struct IdFn {
   uintptr_t operator()(int item) const { return (uintptr_t)(item * 7 + 3); }   // distinct ids
 };
 
+// variant 2: the operator keeps a local state between the inspect pass and the commit pass (local_state<> trait); the state
+// and a buffer it owns live in the per-iteration allocator, next to what the commit pass allocates there
+struct DetLocal {
+  int item, n;
+  char* buf;
+  DetLocal(int i, galois::PerIterAllocTy& a, int n_) : item(i), n(n_), buf((char*)a.allocate(n_)) { memset(buf, 0x20 + (i & 63), n); }
+  bool intact(int i) const {
+    if (item != i) return false;
+    for (int k = 0; k < n; ++k) if (buf[k] != (char)(0x20 + (i & 63))) return false;
+    return true;
+  }
+};
+
 template <int VARIANT>
 static void runVariant(fe::Program& prog, const fe::RunCfg& rc) {
   // the harness' runOne uses wl<WL>() only; the traits variants need their own call
@@ -41,6 +54,22 @@ static void runVariant(fe::Program& prog, const fe::RunCfg& rc) {
   else if (VARIANT == 1)
     galois::for_each(galois::iterate(prog.initial), op, galois::wl<DWL>(), galois::per_iter_alloc(), galois::no_stats(), galois::loopname("det"),
                      galois::det_id<IdFn>());
+  else {
+    auto op2 = [](int item, auto& ctx) {
+      unsigned tid = galois::substrate::ThreadPool::getTID();
+      if (ctx.isFirstPass()) {
+        ctx.template createLocalState<DetLocal>(item, ctx.getPerIterAlloc(), 16 + 8 * (item % 7));
+        fe::theOperator(item, ctx);      // inspect pass: ends at the cautious point
+      } else {
+        DetLocal* ls = ctx.template getLocalState<DetLocal>();
+        bool before = ls && ls->intact(item);
+        fe::theOperator(item, ctx);      // commit pass (allocates from the per-iteration allocator as well)
+        if (!before || !ls->intact(item)) fe::logp(tid, fe::ks("ev", "allocbad") + "," + fe::kv("t", tid) + "," + fe::kv("i", item));
+      }
+    };
+    galois::for_each(galois::iterate(prog.initial), op2, galois::wl<DWL>(), galois::per_iter_alloc(), galois::local_state<DetLocal>(), galois::no_stats(),
+                     galois::loopname("det"));
+  }
 #ifdef VERIF_FLAVOUR_C
   verif::Config off;
   verif::configure(off);
@@ -80,7 +109,9 @@ int main(int argc, char** argv) {
   int runs = ctl ? 5 : 4;
   for (int p = 0; p < progs; ++p) {
     uint64_t ps = rng.next();
-    for (int variant = 0; variant < 2; ++variant) {
+    const char* onlyv = getenv("VERIF_FD_VARIANT");      // a check may ask for one variant only
+    for (int variant = 0; variant < 3; ++variant) {
+      if (onlyv && atoi(onlyv) != variant) continue;
       fe::Program prog;
       vh::Rng pr(ps);
       // below and above the executor's minimum window (MinDelta = 1280) so that windowing is exercised in free runs
@@ -88,12 +119,12 @@ int main(int argc, char** argv) {
       fe::genProgram(prog, pr, nInit, nInit > 500 ? 60 + (int)pr.below(60) : 1 + (int)pr.below(ctl ? 3 : 5), nInit > 500 ? 1 : 2, 2, false, false, 0);
       for (int r = 0; r < runs; ++r) {
         fe::RunCfg rc;
-        rc.wlname = variant ? "Deterministic<det_id>" : "Deterministic";
+        rc.wlname = variant == 2 ? "Deterministic<local_state>" : variant ? "Deterministic<det_id>" : "Deterministic";
         rc.mode = a.mode; rc.seed = rng.next(); rc.kind = "plain";
         rc.threads = 1 + (r == 0 ? 0 : (int)(rc.seed % maxT));
         rc.conflicts = true;
-        rc.descending = p * 2 + variant; // program number (reused field)
-        if (variant == 0) runVariant<0>(prog, rc); else runVariant<1>(prog, rc);
+        rc.descending = p * 3 + variant; // program number (reused field)
+        if (variant == 0) runVariant<0>(prog, rc); else if (variant == 1) runVariant<1>(prog, rc); else runVariant<2>(prog, rc);
       }
     }
   }
